@@ -44,9 +44,9 @@ def main():
     out = {'seed': d, 'property': meta['property']}
     try:
         rc, o = sh(['git', 'apply', '--whitespace=nowarn', os.path.join(d, 'patch.diff')], cwd=copy)
-        if rc:   # the repo moved on since the seed was made (fix: commits): fall back to a 3-way merge
-            rc, o = sh(['git', 'apply', '--3way', '--whitespace=nowarn', os.path.join(d, 'patch.diff')], cwd=copy)
-            out['applied_3way'] = rc == 0
+        if rc:   # the repo moved on since the seed was made (fix: commits): fall back to patch(1) with fuzz
+            rc, o = sh(['patch', '-p1', '-F3', '--no-backup-if-mismatch', '-i', os.path.join(d, 'patch.diff')], cwd=copy)
+            out['applied_with_fuzz'] = rc == 0
         out['applies'] = rc == 0
         if rc:
             out['apply_output'] = o[-400:]
